@@ -153,6 +153,91 @@ def stmt_list_reaches_call(stmts, pred):
     return False
 
 
+def loop_carried(loop):
+    """Names (other than the loop target) whose value flows from one iteration of ``loop`` into the next: assigned in
+    the body, and read in the body at a point where they have not yet been assigned in the same iteration (source
+    order, first occurrence), or updated by an augmented assignment / inside a nested loop condition."""
+    target = {n.id for n in ast.walk(loop.target) if isinstance(n, ast.Name)} if isinstance(loop, ast.For) else set()
+    assigned = set()
+    for n in ast.walk(loop):
+        if n is loop:
+            continue
+        if isinstance(n, ast.Name) and isinstance(n.ctx, ast.Store):
+            assigned.add(n.id)
+        if isinstance(n, (ast.For, ast.comprehension)) and n is not loop:
+            pass
+    assigned -= target
+    # comprehension / inner-loop targets are re-initialised by their own header
+    inner_targets = set()
+    for n in ast.walk(loop):
+        if n is not loop and isinstance(n, (ast.For, ast.comprehension)):
+            inner_targets |= {x.id for x in ast.walk(n.target) if isinstance(x, ast.Name)}
+    carried = set()
+    seen_store = set()
+
+    def visit(stmts):
+        for s in stmts:
+            if isinstance(s, ast.AugAssign):
+                for x in ast.walk(s.value):
+                    if isinstance(x, ast.Name) and x.id in assigned and x.id not in seen_store and x.id not in inner_targets:
+                        carried.add(x.id)
+                if isinstance(s.target, ast.Name):
+                    if s.target.id not in seen_store and s.target.id not in inner_targets:
+                        carried.add(s.target.id)
+                    seen_store.add(s.target.id)
+                continue
+            if isinstance(s, (ast.If, ast.While)):
+                for x in ast.walk(s.test):
+                    if isinstance(x, ast.Name) and x.id in assigned and x.id not in seen_store and x.id not in inner_targets:
+                        carried.add(x.id)
+                before = set(seen_store)
+                visit(s.body)
+                after_body = set(seen_store)
+                seen_store.clear()
+                seen_store.update(before)
+                visit(s.orelse)
+                # assigned on both branches -> assigned
+                both = after_body & set(seen_store)
+                seen_store.clear()
+                seen_store.update(before | both)
+                if isinstance(s, ast.While):
+                    seen_store.clear()
+                    seen_store.update(before)
+                continue
+            if isinstance(s, ast.For):
+                for x in ast.walk(s.iter):
+                    if isinstance(x, ast.Name) and x.id in assigned and x.id not in seen_store and x.id not in inner_targets:
+                        carried.add(x.id)
+                before = set(seen_store)
+                visit(s.body)
+                seen_store.clear()
+                seen_store.update(before)
+                continue
+            if isinstance(s, (ast.With, ast.Try)):
+                visit(getattr(s, 'body', []))
+                for h in getattr(s, 'handlers', []):
+                    visit(h.body)
+                visit(getattr(s, 'finalbody', []))
+                continue
+            # simple statement: reads first, then stores
+            value_nodes = []
+            if isinstance(s, ast.Assign):
+                value_nodes = [s.value] + [t for t in s.targets if not isinstance(t, ast.Name)]
+            else:
+                value_nodes = [s]
+            for v in value_nodes:
+                for x in ast.walk(v):
+                    if isinstance(x, ast.Name) and isinstance(x.ctx, ast.Load) and x.id in assigned and x.id not in seen_store and x.id not in inner_targets:
+                        carried.add(x.id)
+            if isinstance(s, ast.Assign):
+                for t in s.targets:
+                    for x in ast.walk(t):
+                        if isinstance(x, ast.Name) and isinstance(x.ctx, ast.Store):
+                            seen_store.add(x.id)
+    visit(loop.body)
+    return carried
+
+
 def in_loop(node, fn=None):
     p = parent(node)
     while p is not None and p is not fn and not isinstance(p, (ast.FunctionDef, ast.AsyncFunctionDef)):
